@@ -52,6 +52,7 @@ def units(tier, seed):
     nmax = 120 if tier == "quick" else 300
     for box in ("B_asym", "B_dec"):
         us.append({"kind": "budgets", "box": box, "nmax": nmax, "seed": s})
+    us.append({"kind": "budgets", "box": "B_asym", "nmax": 60, "seed": 0})  # seed 0 is a seed like any other
     return us
 
 
